@@ -745,3 +745,76 @@ func ruleMaskGuard(c *Ctx, rule string) {
 		c.und(rule, "kmerindex/reject-above-kMask", token.NoPos, "no range guard against kMask found")
 	}
 }
+
+// ---- tempfile pairing: every created run file is registered (or removed) ---------
+
+// ruleTempFilePairing: after a successful ioutil.TempFile/os.CreateTemp in
+// package morass every path to a return passes through the registration of
+// the file in m.files (so Clear/AutoClear/CleanUp close and remove it) or
+// through its removal. A path that returns without either leaves an
+// untracked, unclosed run file behind.
+func ruleTempFilePairing(c *Ctx, rule string) {
+	sp := c.SPkgs[c.pkg("morass").PkgPath]
+	n := 0
+	for _, f := range srcFuncs(sp) {
+		for _, b := range f.Blocks {
+			for _, ins := range b.Instrs {
+				call, ok := ins.(*ssa.Call)
+				if !ok {
+					continue
+				}
+				g := call.Call.StaticCallee()
+				if g == nil || g.Pkg == nil || !((g.Pkg.Pkg.Path() == "io/ioutil" && g.Name() == "TempFile") || (g.Pkg.Pkg.Path() == "os" && g.Name() == "CreateTemp")) {
+					continue
+				}
+				n++
+				c.Funcs[funcName(f)] = true
+				key := fmt.Sprintf("%s/%s#%d-registered-on-every-path", funcName(f), g.Name(), n)
+				errv := extractOf(call, 1)
+				registers := func(i ssa.Instruction) bool {
+					if st, ok := i.(*ssa.Store); ok {
+						if name, ok := fieldOf(st.Addr, morassPkg, "Morass"); ok && name == "files" {
+							return true
+						}
+					}
+					if cl, ok := i.(*ssa.Call); ok && calleeIs(&cl.Call, "os", "Remove") {
+						return true
+					}
+					return false
+				}
+				var leak *ssa.Return
+				for _, rb := range f.Blocks {
+					ret, ok := rb.Instrs[len(rb.Instrs)-1].(*ssa.Return)
+					if !ok || !reachesInstr(call, ret) {
+						continue
+					}
+					// exempt: the creation failed on this path
+					failed := false
+					if errv != nil {
+						for _, bf := range branchesAt(rb) {
+							if (bf.cond.X == ssa.Value(errv) && isNilConst(bf.cond.Y)) || (bf.cond.Y == ssa.Value(errv) && isNilConst(bf.cond.X)) {
+								if effectiveOp(bf, true) == token.NEQ {
+									failed = true
+								}
+							}
+						}
+					}
+					if failed {
+						continue
+					}
+					if !mustPassBetween(call, ret, registers) {
+						leak = ret
+					}
+				}
+				if leak != nil {
+					c.bad(rule, key, call.Pos(), fmt.Sprintf("a path from the successful creation of the run file to the return at %s neither registers the file in m.files nor removes it: after a failed write the file is untracked and unclosed, so Clear, AutoClear and a later drain leave it in the temporary directory", c.pos(leak.Pos())))
+				} else {
+					c.ok(rule, key, call.Pos(), "every path after a successful creation registers the file in m.files (or removes it) before returning")
+				}
+			}
+		}
+	}
+	if n == 0 {
+		c.und(rule, "morass/TempFile", token.NoPos, "no temporary-file creation found in package morass")
+	}
+}
